@@ -315,3 +315,40 @@ Lemma unrepaired_reason_injects_header :
 Proof.
   exists (mkCfg true false false), 200, [79; 75; 13; 10; 88; 58; 32; 121]. vm_compute. reflexivity.
 Qed.
+
+(** ---------- statements assembled for Property.v ---------- *)
+
+Lemma framing_consistent_all (responses : N -> bytes) :
+  (forall c s ws, self_delimited (expected c s ws) = false -> persistent c = false) /\
+  (forall qs, snd (run_conn responses (conn_reqs qs)) = existsb (fun q => negb (persistent (q_cfg q))) qs).
+Proof. split; [exact close_delimited_not_persistent|exact (run_conn_closed responses)]. Qed.
+
+Lemma table_invariant_all (responses : N -> bytes) c ops :
+  tbl_inv (s_tbl (fst (run_ops responses c (init c) ops))).
+Proof. exact (run_ops_inv responses c ops (init c) (init_inv c)). Qed.
+
+Lemma set_add_exact (responses : N -> bytes) c s name :
+  tbl_inv (s_tbl s) ->
+  forall k, enc_name name = Good k ->
+  (forall vals vs, enc_values vals = Good vs ->
+     let s' := fst (step responses c s (SetRaw name vals)) in
+     tbl_get k (s_tbl s') = vs /\ forall k', beq k' k = false -> tbl_get k' (s_tbl s') = tbl_get k' (s_tbl s)) /\
+  (forall val v, enc_value val = Good v ->
+     let s' := fst (step responses c s (AddRaw name val)) in
+     tbl_get k (s_tbl s') = tbl_get k (s_tbl s) ++ [san v] /\
+     forall k', beq k' k = false -> tbl_get k' (s_tbl s') = tbl_get k' (s_tbl s)).
+Proof.
+  intros Hinv k En. split.
+  - intros vals vs Ev. exact (set_then_get responses c s name vals k vs Hinv En Ev).
+  - intros val v Ev. exact (add_then_get responses c s name val k v Hinv En Ev).
+Qed.
+
+Lemma sanitisation_all :
+  (forall v, no_crlf (san v) = true) /\
+  (forall v, forallb (fun c => negb (is_crlf_byte c) && negb (c =? 59)) (csan v) = true) /\
+  (forall ck b, cookie_bytes ck = Good b -> no_crlf b = true) /\
+  (forall v, san (san v) = san v).
+Proof.
+  repeat split; [exact san_no_crlf|exact csan_clean| |exact san_idem].
+  intros ck b H. pose proof (cookie_bytes_clean ck) as C. rewrite H in C. exact C.
+Qed.
